@@ -49,6 +49,7 @@ class Harness:
     timeout_ms = {'quick': 20000, 'thorough': 60000}
     max_paths = 200000
     unit_wall_s = {'quick': 240, 'thorough': 1500}
+    units_per_process = 1     # >1: consecutive small units share a fork
 
     def configs(self, tier):
         return [{}]
@@ -363,76 +364,82 @@ def load_known(prop):
     return out
 
 
-def _child(conn, unit):
+def _blank(u, error):
+    return dict(hidx=u[1], cidx=u[2], cfg=u[3], sat=[], error=error, paths=0,
+                decisions=0, obligations=0, discharged=0, by={}, unknown=[],
+                reach=0, reach_unknown=0, degraded=[], samples=[],
+                exceptions={}, concrete=0, stats=None, notes=[], wall_s=0)
+
+
+def _child(conn, units):
     try:
-        conn.send(_unit(unit))
-    except BaseException as e:      # noqa
-        try:
-            conn.send(dict(hidx=unit[1], cidx=unit[2], cfg=unit[3],
-                           error='worker failed: %r' % (e, ), sat=[], paths=0,
-                           decisions=0, obligations=0, discharged=0, by={},
-                           unknown=[], reach=0, reach_unknown=0, degraded=[],
-                           samples=[], exceptions={}, concrete=0, stats=None,
-                           notes=[], wall_s=0))
-        except Exception:            # noqa
-            pass
+        for unit in units:
+            try:
+                conn.send(_unit(unit))
+            except BaseException as e:      # noqa
+                conn.send(_blank(unit, 'worker failed: %r' % (e, )))
     finally:
         conn.close()
 
 
+def _wall(h, tier):
+    return h.unit_wall_s[tier] if isinstance(h.unit_wall_s, dict) else \
+        h.unit_wall_s
+
+
 def _run_units(units, jobs, harnesses):
-    """one forked process per work unit with a HARD deadline enforced by the
-    parent (z3 does not always honour its timeout, and cannot always be
+    """forked worker processes with a HARD deadline enforced by the parent
+    (z3 does not always honour its timeout, and cannot always be
     interrupted): a unit that overruns is killed and run again for its
-    concrete oracle only; its symbolic part is reported as not decided."""
+    concrete oracle only; its symbolic part is reported as not decided.
+    Harnesses with many tiny units may declare `units_per_process` to share
+    one fork among consecutive units (the deadline is then the sum)."""
     ctx = mp.get_context('fork')
-    pending = list(units)[::-1]
+    groups = []
+    for u in units:
+        h = harnesses[u[1]]
+        k = int(getattr(h, 'units_per_process', 1) or 1)
+        if groups and k > 1 and groups[-1][0][1] == u[1] and \
+                len(groups[-1]) < k:
+            groups[-1].append(u)
+        else:
+            groups.append([u])
+    pending = groups[::-1]
     running = []
     results = []
     while pending or running:
         while pending and len(running) < jobs:
-            u = pending.pop()
-            h = harnesses[u[1]]
-            tier = u[4]
-            wall = h.unit_wall_s[tier] if isinstance(h.unit_wall_s, dict) \
-                else h.unit_wall_s
-            limit = wall * 1.5 + 90
-            if len(u) > 6:
-                limit = wall + 120
+            g = pending.pop()
+            limit = 0.0
+            for u in g:
+                w = _wall(harnesses[u[1]], u[4])
+                limit += (w + 120) if len(u) > 6 else (w * 1.5 + 90)
             pc, cc = ctx.Pipe(duplex=False)
-            p = ctx.Process(target=_child, args=(cc, u), daemon=True)
+            p = ctx.Process(target=_child, args=(cc, g), daemon=True)
             p.start()
             cc.close()
-            running.append([p, pc, u, time.time() + limit])
+            running.append([p, pc, g, time.time() + limit, 0])
         progressed = False
         for item in list(running):
-            p, pc, u, dead = item
-            got = None
+            p, pc, g, dead, done = item
             try:
-                if pc.poll():
-                    got = pc.recv()
+                while pc.poll():
+                    results.append(pc.recv())
+                    item[4] += 1
+                    progressed = True
             except (EOFError, OSError):
-                got = None
-                if not p.is_alive():
-                    got = dict(hidx=u[1], cidx=u[2], cfg=u[3], sat=[],
-                               error='worker died without a result', paths=0,
-                               decisions=0, obligations=0, discharged=0,
-                               by={}, unknown=[], reach=0, reach_unknown=0,
-                               degraded=[], samples=[], exceptions={},
-                               concrete=0, stats=None, notes=[], wall_s=0)
-            if got is not None:
-                results.append(got)
+                pass
+            done = item[4]
+            if done >= len(g):
                 p.join(1)
                 running.remove(item)
                 progressed = True
-            elif not p.is_alive() and not pc.poll():
-                results.append(dict(
-                    hidx=u[1], cidx=u[2], cfg=u[3], sat=[],
-                    error='worker died without a result (exit code %r)' %
-                    (p.exitcode, ), paths=0, decisions=0, obligations=0,
-                    discharged=0, by={}, unknown=[], reach=0, reach_unknown=0,
-                    degraded=[], samples=[], exceptions={}, concrete=0,
-                    stats=None, notes=[], wall_s=0))
+            elif not p.is_alive():
+                # died without delivering everything
+                results.append(_blank(g[done], 'worker died without a result '
+                                      '(exit code %r)' % (p.exitcode, )))
+                for u in g[done + 1:]:
+                    pending.append([u])
                 running.remove(item)
                 progressed = True
             elif time.time() > dead:
@@ -440,17 +447,15 @@ def _run_units(units, jobs, harnesses):
                 p.join(2)
                 running.remove(item)
                 progressed = True
+                u = g[done]
                 if len(u) > 6:
-                    results.append(dict(
-                        hidx=u[1], cidx=u[2], cfg=u[3], sat=[],
-                        error='work unit killed at its hard deadline (also '
-                        'in concrete-only mode)', paths=0, decisions=0,
-                        obligations=0, discharged=0, by={}, unknown=[],
-                        reach=0, reach_unknown=0, degraded=[], samples=[],
-                        exceptions={}, concrete=0, stats=None, notes=[],
-                        wall_s=0))
+                    results.append(_blank(u, 'work unit killed at its hard '
+                                          'deadline (also in concrete-only '
+                                          'mode)'))
                 else:
-                    pending.append(tuple(u) + ('concrete-only', ))
+                    pending.append([tuple(u) + ('concrete-only', )])
+                for u2 in g[done + 1:]:
+                    pending.append([u2])
         if not progressed:
             time.sleep(0.02)
     return results
